@@ -205,6 +205,12 @@ theorem step_subInv {s s' : State} {a : Action} (h : SubInv s) (hs : step s a = 
     · injection hs with hs; subst hs
       exact subInv_setPipe h p _ (fun j hj => hj) (h.out p) (h.held p)
     · contradiction
+  | rTrunc p u =>
+    simp only [step] at hs
+    split at hs
+    · injection hs with hs; subst hs
+      exact subInv_setPipe h p _ (fun j hj => hj) (h.out p) (h.held p)
+    · contradiction
 
 theorem reachable_subInv {s : State} (h : Reachable s) : SubInv s :=
   reachable_induction (fun nw pipes _ hp => subInv_init nw pipes hp) (fun _ _ _ hi hs => step_subInv hi hs) h
@@ -512,6 +518,12 @@ theorem step_consInv {s s' : State} {a : Action} (h : ConsInv s) (ht : TokInv s)
     · injection hs with hs; subst hs
       apply consInv_setPipe h p
       intro _ hc; simp at hc
+    · contradiction
+  | rTrunc p u =>
+    simp only [step] at hs
+    split at hs
+    · rename_i hg; injection hs with hs; subst hs
+      exact consInv_setPipe_same h hg.1 _ rfl rfl rfl rfl rfl
     · contradiction
 
 theorem reachable_consInv {s : State} (h : Reachable s) : ConsInv s := by
